@@ -64,6 +64,16 @@ func (r *Run) NetEvents(p *NetPolicy) []Ev {
 			evs = append(evs, Ev{Kind: "stall-release", Desc: ls.Name, key: fmt.Sprintf("c%08d", ls.ID), Do: func() {
 				r.Net.ReleaseStall(r.Net.Link(ls.ID))
 				r.Logf("stall released %s", ls.Name)
+				r.Count("fault_write_stall_fired")
+				if at, ok := r.stallArmedAt[ls.ID]; ok {
+					for _, rs := range r.Net.LinkStates() {
+						if rs.ID == ls.Reverse && rs.Delivered > at {
+							// the peer's answer reached the writer's side before its write returned
+							r.Count("stall_reply_before_release")
+						}
+					}
+					delete(r.stallArmedAt, ls.ID)
+				}
 				r.AddShape("unstall")
 			}})
 		}
